@@ -32,7 +32,7 @@ pub enum Verdict {
 /// `hist` may be in any order; at most 128 operations
 pub fn check<M: Model>(init: M, hist: &[Ev<M::Op>], budget: u64) -> Verdict {
     let n = hist.len();
-    assert!(n <= 128, "history too long for the WGL checker");
+    if n > 128 { return Verdict::Budget { states: 0 } }   // too long for the bit-set representation: inconclusive, never a verdict
     let full: u128 = if n == 128 { u128::MAX } else { (1u128 << n) - 1 };
     let must: u128 = hist.iter().enumerate().filter(|(_, e)| e.ret != u64::MAX).fold(0u128, |m, (i, _)| m | (1u128 << i));
     let mut seen: HashSet<(u128, M)> = HashSet::new();
